@@ -10,8 +10,10 @@ def write_evidence(mod, pid, tier, seed, *, cases, keys, counters, features, anc
                    problems, broken, wall, nshards) -> None:
     exhaustive = bool(getattr(mod, "EXHAUSTIVE", {}).get(tier, False))
     verdict = "broken-harness" if broken else "violated" if unknown else "inconclusive" if problems else "held"
+    execs = sum(int(counters.get(k, 0)) for k in getattr(mod, "EXECUTION_COUNTERS", []))
     cov = {
-        "evaluations": int(cases),
+        "evaluations": int(max(cases, execs)),
+        "cases": int(cases),
         "distinct_nontrivial": int(len(keys)),
         "rule": getattr(mod, "RULE", ""),
         "samples": samples if samples else [{"note": "no sample recorded"}],
